@@ -84,6 +84,9 @@ func cmdG(args []string) {
 	logdir := fs.String("logdir", "", "write every query here")
 	recFails := fs.String("recursion-fails", "", "exceeding the recursion bound is a violation of this obligation id")
 	maxdepth := fs.Int("maxdepth", 60, "recursion depth bound")
+	spurious := fs.Int("spurious", 0, "spurious condition wake-ups allowed per wait")
+	schedSteps := fs.Int("sched-steps", 400, "scheduling points per path")
+	preempt := fs.Int("preempt", -1, "preemption bound of the scheduler (-1 = unbounded)")
 	stubs := fs.String("stubs", "", "environment stub set: archive:<namelen>:<entries>")
 	fs.Parse(args)
 
@@ -132,6 +135,9 @@ func cmdG(args []string) {
 		x.Cfg.MapReverse = *mapRev
 		x.Cfg.RecursionFails = *recFails
 		x.Cfg.MaxDepth = *maxdepth
+		x.Cfg.Spurious = *spurious
+		x.Cfg.SchedSteps = *schedSteps
+		x.Cfg.Preempt = *preempt
 		if strings.HasPrefix(*stubs, "archive:") {
 			var nl, ne int
 			fmt.Sscanf(*stubs, "archive:%d:%d", &nl, &ne)
